@@ -331,7 +331,10 @@ def check_seek_protocols(ctx, F):
         if rp is None:
             ctx.unresolved('R1', role, p.defpath, 'pos() has several paths', key=key)
             continue
-        snapshot = inline_state(F, rp.ret)
+        snapshot = inline_state(F, rp.ret, adt)
+        if sym.contains(snapshot, lambda x: isinstance(x, tuple) and x and x[0] == 'call' and x[1].endswith('::state')):
+            ctx.unresolved('R1', role, p.defpath, 'state() accessor could not be inlined', key=key)
+            continue
         bad = None
         n_ok = 0
         for r in ps or []:
@@ -354,8 +357,11 @@ def check_seek_protocols(ctx, F):
                     fld = x[1]
                     if any(repr(x) == pb for pb in pos_backends):
                         continue
-                    fin = sym.subst(evs.final_read(r, fld), m)
-                    if fin != x:
+                    raw = evs.final_read(r, fld)
+                    if sym.contains(raw, lambda y: isinstance(y, tuple) and y and y[0] == 'in' and y[1][:2] == (1, 'deref')):
+                        bad = 'after seek(), field %s still depends on the coder\'s previous state (%s): it must be a function of the snapshot alone' % (sym.path_str(fld), sym.show(raw)[:100])
+                    fin = simplify_partial(sym.subst(raw, m))
+                    if fin != x and not bad:
                         bad = 'field %s recorded by pos() is not restored by seek() (becomes %s)' % (sym.path_str(fld), sym.show(fin)[:80])
         n_err = sum(1 for r in ps or [] if r.end == 'return' and rules.ret_shape(r.ret)[0] == 'Err')
         n_seeks = len([1 for x in sym.subterms(snapshot) if isinstance(x, tuple) and x and x[0] == 'call' and x[1] == 'Pos::pos'])
@@ -369,14 +375,24 @@ def check_seek_protocols(ctx, F):
             ctx.ok('R1', role, s.defpath, 'snapshot %s' % sym.show(snapshot)[:160], key=key)
 
 
-def inline_state(F, t):
+def simplify_partial(t):
+    """partial(base, overrides) where every override re-stores the base's own projection is just base."""
+    if t[0] == 'partial' and t[1][0] == 'in':
+        keep = tuple((p, v) for p, v in t[2] if v != ('in', t[1][1] + p))
+        return t[1] if not keep else ('partial', t[1], keep)
+    return t
+
+
+def inline_state(F, t, adt=None):
     """Code::state(self) -> the field it returns (one-level inlining of the accessor)."""
     def f(n):
         if n and n[0] == 'call' and n[1].endswith('::state') and n[2] and n[2][0] == ('in', (1, 'deref')):
             b = F.by_def.get(n[1])
             if b is None:
-                cands = [x for x in F.bodies if x.promoted is None and x.name == 'state' and x.impl_trait == 'stream::Code']
-                return None
+                cands = [x for x in F.bodies if x.promoted is None and x.name == 'state' and x.impl_trait == 'stream::Code' and x.self_adt == adt]
+                if len(cands) != 1:
+                    return None
+                b = cands[0]
             _, pp = rules.evaluate(b)
             r = c18.only_return(pp)
             if r is not None:
@@ -397,7 +413,9 @@ def arg_projection_map(r, ev, snapshot):
                 v = snapshot
                 ok = True
                 for e in x[1][1:]:
-                    if v[0] == 'agg' and e[0] == 'f':
+                    if v[0] == 'in' and e[0] == 'f':
+                        v = ('in', v[1] + (e,))
+                    elif v[0] == 'agg' and e[0] == 'f':
                         fn = v[3]
                         if fn and e[1] in fn:
                             v = v[2][fn.index(e[1])]
